@@ -1,6 +1,7 @@
 package schema
 
 import (
+	stdBytes "bytes"
 	"fmt"
 	"sort"
 
@@ -81,17 +82,29 @@ func (s Schema) TypeNames() []string {
 		}
 		ta, tb := s.types[a], s.types[b]
 		fa, fb := "", ""
+		var ca, cb bytes.Bytes
 		if ta.rootFile != nil {
-			fa = ta.rootFile.Name()
+			fa, ca = ta.rootFile.Name(), ta.rootFile.Content()
 		}
 		if tb.rootFile != nil {
-			fb = tb.rootFile.Name()
+			fb, cb = tb.rootFile.Name(), tb.rootFile.Content()
 		}
 		if fa != fb {
 			return fa < fb
 		}
+		// Two files may have the same name.
+		if ta.rootFile != tb.rootFile {
+			if c := stdBytes.Compare(ca, cb); c != 0 {
+				return c < 0
+			}
+		}
 		if ta.begin != tb.begin {
 			return ta.begin < tb.begin
+		}
+		// All rule-sets of one "or" rule are registered with the place of the node
+		// the rule is written on.
+		if ta.seq != tb.seq {
+			return ta.seq < tb.seq
 		}
 		return a < b
 	})
@@ -120,7 +133,7 @@ func (s *Schema) addType(name string, schema *Schema, rootFile *fs.File, begin b
 	if _, ok := s.types[name]; ok {
 		panic(errors.Format(errors.ErrDuplicationOfNameOfTypes, name))
 	}
-	s.types[name] = Type{schema, rootFile, begin}
+	s.types[name] = Type{schema, rootFile, begin, len(s.types)}
 }
 
 func (s *Schema) AddType(n string, t Type) {
